@@ -274,6 +274,16 @@ class VSplit(Val):
 
     def getitem(self, X, key):
         k = simp(key.t) if _is(key, VInt) else None
+        if k is not None and z3.is_int_value(k) and k.as_long() == -1:
+            # the last piece: the suffix after the last occurrence of the separator (the whole string when there is none).
+            # Relational (fresh value + constraints): z3's seq.last_indexof is not interpreted on non-string sequences
+            # (found by the CPython cross-check), so it is not used.
+            sep = self.sep
+            t = X.fresh(self.s.sort(), 'last_piece')
+            X.assume(z3.SuffixOf(t, self.s))
+            X.assume(z3.Not(z3.Contains(t, sep)))
+            X.assume(z3.If(z3.Contains(self.s, sep), z3.SuffixOf(z3.Concat(sep, t), self.s), t == self.s))
+            return self.S(t)
         if k is None or not z3.is_int_value(k) or k.as_long() != 0:
             raise Unsupported('index into a split other than [0]')
         i = z3.IndexOf(self.s, self.sep, z3.IntVal(0))
